@@ -139,6 +139,7 @@ def mutants(dirs, expect_alarm=True):
         try:
             caught = []
             lines = []
+            broken = False
             props = m.get('checks') or [m['property']]
             for prop in props:
                 rc, viol, out = run_check_against(root, prop, runs=m.get('runs'))
@@ -146,15 +147,16 @@ def mutants(dirs, expect_alarm=True):
                     caught.append(prop)
                     lines += [v.strip() for v in viol if 'oracle=' in v][:3]
                 elif rc == 2:
+                    broken = True
                     lines.append('HARNESS-ERROR in %s: %s' % (prop, [l for l in out.splitlines() if 'HARNESS' in l][:1]))
         finally:
             shutil.rmtree(d, ignore_errors=True)
-        good = bool(caught) if expect_alarm else not caught
+        good = bool(caught) if expect_alarm else (not caught and not broken)     # a harness error under a neutral refactor is a broken check
         ok &= good
         results.append({'id': os.path.basename(m['dir']), 'property': m['property'], 'caught_by': caught, 'oracles': lines[:4],
                         'ok': good, 'wall_s': round(time.time() - t0, 1)})
         print('%-40s %-4s %s by=%s %s (%.0fs)' % (os.path.basename(m['dir']), m['property'],
-                                                   ('CAUGHT' if caught else 'MISSED') if expect_alarm else ('QUIET' if not caught else 'FALSE-ALARM'),
+                                                   ('CAUGHT' if caught else 'MISSED') if expect_alarm else ('FALSE-ALARM' if caught else ('BROKEN' if broken else 'QUIET')),
                                                    ','.join(caught) or '-', '; '.join(x[:110] for x in lines[:2]), time.time() - t0))
         sys.stdout.flush()
     os.makedirs(os.path.join(VERIF, 'selftest'), exist_ok=True)
